@@ -202,7 +202,7 @@ Proof.
   - inversion NZ as [|? ? NZ1 NZr]; subst. rewrite run_steps_cons. cbn [levels_ok].
     pose proof (update_wrapper_opt_refines (s_options st) (s_id st) h (s_injected st) (s_expected st) WF NZ1) as R.
     destruct (update_wrapper_opt (s_options st) (s_id st) h (s_injected st) (s_expected st)) as [g|e];
-      destruct (spec_wraps (func_sig h) (s_injected st) (s_expected st)) as [s'|e'] eqn:SW;
+      destruct (spec_wraps_opt (o_inject_to_varkw (s_options st)) (func_sig h) (s_injected st) (s_expected st)) as [s'|e'] eqn:SW;
       try (exfalso; exact R).
     + destruct R as [SG [N [Dc [M [A [ID [DW [DS [IV [[WFg WDg] [b2 [G2 ES]]]]]]]]]]]].
       destruct MT as [MN [MD [MM MA]]].
@@ -234,7 +234,7 @@ Proof.
         -- intro PLN. cbn [forallb] in PLN. apply andb_true_iff in PLN as [P1 P2].
            assert (EQ : s' = func_sig h).
            { unfold plain_step in P1. destruct (s_injected st); [|discriminate]. destruct (s_expected st); [|discriminate].
-             unfold spec_wraps in SW. simpl in SW. congruence. }
+             unfold spec_wraps_opt in SW. simpl in SW. congruence. }
            rewrite EQ in SG, IV, FS. constructor.
            ++ unfold passes_on. split; [exact SG | exact IV].
            ++ rewrite <- FS. apply PL. exact P2.
@@ -402,7 +402,7 @@ Proof.
   inversion NZ as [|? ? NZ1 NZr]; subst. rewrite run_steps_cons.
   pose proof (update_wrapper_opt_refines (s_options st) (s_id st) h (s_injected st) (s_expected st) WF NZ1) as R.
   destruct (update_wrapper_opt (s_options st) (s_id st) h (s_injected st) (s_expected st)) as [g|e]; [|constructor].
-  destruct (spec_wraps (func_sig h) (s_injected st) (s_expected st)) as [s'|e']; [|exfalso; exact R].
+  destruct (spec_wraps_opt (o_inject_to_varkw (s_options st)) (func_sig h) (s_injected st) (s_expected st)) as [s'|e']; [|exfalso; exact R].
   destruct R as [SG [_ [_ [_ [_ [_ [_ [_ [_ [[WFg _] _]]]]]]]]]].
   cbn [fst]. constructor; [exists s'; exact SG | apply IH; assumption].
 Qed.
